@@ -17,7 +17,7 @@
 
 use linfa::prelude::*;
 use linfa::{DatasetBase, Float};
-use linfa_clustering::{KMeans, KMeansInit};
+use linfa_clustering::{KMeans, KMeansInit, KMeansParams};
 use linfa_nn::distance::{Distance, L1Dist, L2Dist, LInfDist, LpDist};
 use lvmc_core::enumerate as en;
 use lvmc_core::{close, guarded, json, Ctx, Level, Value, Violation};
@@ -560,6 +560,39 @@ fn check_assign<F: Float, D: Distance<F>, S: Data<Elem = F>>(
             return;
         }
     };
+    // ---- in-place entry points on buffers that do NOT come fresh from default_target: pre-filled
+    // with poison, pre-filled with a wrong (but valid) label everywhere, reused from another batch
+    {
+        let k = env.k;
+        let mut bufs: Vec<(&str, Array1<usize>)> = vec![
+            ("poisoned_with_usize_max", Array1::from_elem(batch.len(), usize::MAX)),
+            ("prefilled_with_wrong_labels", batch.mapv(|c| (c + 1) % k.max(2))),
+        ];
+        // reused: first filled by predict_inplace on the same points in reverse order
+        let mut reused = Array1::from_elem(batch.len(), 0usize);
+        let rev = points.slice(s![..;-1, ..]);
+        let _ = guarded(|| model.predict_inplace(&rev, &mut reused));
+        bufs.push(("reused_from_previous_batch", reused));
+        for (how, mut buf) in bufs {
+            cnt.add("predict_inplace_batch_evaluations", 1);
+            match guarded(|| model.predict_inplace(points, &mut buf)) {
+                Err(p) => viols.push(Violation::new(
+                    "kmeans.predict_inplace.panic",
+                    format!("predict_inplace on {} points into a buffer {} panicked: {}", which, how, p),
+                    at2(json!({"buffer": how})),
+                )),
+                Ok(()) => {
+                    if buf != batch {
+                        viols.push(Violation::new(
+                            "kmeans.predict_inplace.stale_buffer_dependence",
+                            format!("predict_inplace on {} points into a buffer {} gives {:?}, predict gives {:?}", which, how, buf.to_vec(), batch.to_vec()),
+                            at2(json!({"buffer": how})),
+                        ));
+                    }
+                }
+            }
+        }
+    }
     if batch.len() != np || trans.len() != np {
         viols.push(Violation::new(
             "kmeans.predict.wrong_len",
@@ -578,6 +611,21 @@ fn check_assign<F: Float, D: Distance<F>, S: Data<Elem = F>>(
             cnt.add("predict_points_with_tied_centroids", 1);
         }
         let single = guarded(|| model.predict(&points.row(i)));
+        // single observation written into a poisoned / wrong scalar
+        if let Ok(want) = single {
+            for start in [usize::MAX, (want + 1) % k.max(2)] {
+                let mut slot = start;
+                cnt.add("predict_inplace_single_evaluations", 1);
+                let r = guarded(|| model.predict_inplace(&points.row(i), &mut slot));
+                if r.is_err() || slot != want {
+                    viols.push(Violation::new(
+                        "kmeans.predict_inplace.stale_buffer_dependence",
+                        format!("single-observation predict_inplace into a slot holding {} gives {:?} ({}), predict gives {}", start, slot, if r.is_err() { "panicked" } else { "returned" }, want),
+                        at2(json!({"point": p64[i], "form": "single_row_inplace"})),
+                    ));
+                }
+            }
+        }
         cnt.add("predict_evaluations", 2);
         cnt.add("transform_evaluations", 1);
         for (form, got) in [("batch", Ok(batch[i])), ("single_row", single)] {
@@ -1307,7 +1355,264 @@ fn run_seeded<F: Float, D: Distance<F>>(case: &Case, dist: D, met: Met, viols: &
     cnt
 }
 
+// ------------------------------------------------------------------------------------------
+// family: builder history (setter orders, decoy-then-real writes, constructors)
+// ------------------------------------------------------------------------------------------
+
+const SETTERS: [&str; 4] = ["n_runs", "tolerance", "max_n_iterations", "init_method"];
+
+struct ParamSet<F: Float> {
+    n_runs: usize,
+    tol: F,
+    max_iter: u64,
+    init: KMeansInit<F>,
+    decoy_n_runs: usize,
+    decoy_tol: F,
+    decoy_max_iter: u64,
+    decoy_init: KMeansInit<F>,
+}
+
+fn apply_setter<F: Float, R: rand::Rng + Clone, D: Distance<F>>(p: KMeansParams<F, R, D>, ps: &ParamSet<F>, field: usize, decoy: bool) -> KMeansParams<F, R, D> {
+    match (field, decoy) {
+        (0, false) => p.n_runs(ps.n_runs),
+        (0, true) => p.n_runs(ps.decoy_n_runs),
+        (1, false) => p.tolerance(ps.tol),
+        (1, true) => p.tolerance(ps.decoy_tol),
+        (2, false) => p.max_n_iterations(ps.max_iter),
+        (2, true) => p.max_n_iterations(ps.decoy_max_iter),
+        (3, false) => p.init_method(ps.init.clone()),
+        (3, true) => p.init_method(ps.decoy_init.clone()),
+        _ => panic!("bad setter"),
+    }
+}
+
+/// all sequences: the 24 orders of the real writes; for each order and each field the decoy write of
+/// that field first; for each order all four decoys first
+fn builder_sequences() -> Vec<Vec<(usize, bool)>> {
+    let mut out = Vec::new();
+    for perm in en::permutations(4) {
+        let real: Vec<(usize, bool)> = perm.iter().map(|&f| (f, false)).collect();
+        out.push(real.clone());
+        for f in 0..4 {
+            // decoy immediately before the real write of the same field and at the very beginning
+            let mut a = vec![(f, true)];
+            a.extend(real.iter().cloned());
+            out.push(a);
+            let pos = real.iter().position(|x| x.0 == f).unwrap();
+            if pos > 0 {
+                let mut b = real.clone();
+                b.insert(pos, (f, true));
+                out.push(b);
+            }
+        }
+        let mut all: Vec<(usize, bool)> = (0..4).map(|f| (f, true)).collect();
+        all.extend(real.iter().cloned());
+        out.push(all);
+    }
+    out
+}
+
+fn seq_name(seq: &[(usize, bool)]) -> String {
+    seq.iter().map(|&(f, d)| format!("{}{}", SETTERS[f], if d { "(decoy)" } else { "" })).collect::<Vec<_>>().join(",")
+}
+
+fn param_set<F: Float>(case: &Case, d: usize) -> ParamSet<F> {
+    let init = match case.init_kind.as_str() {
+        "precomputed" => KMeansInit::Precomputed(arr(&case.init, d)),
+        "random" => KMeansInit::Random,
+        "kmeans++" => KMeansInit::KMeansPlusPlus,
+        _ => panic!("bad init kind"),
+    };
+    ParamSet {
+        n_runs: case.max_runs,
+        tol: F::cast(case.tol),
+        max_iter: case.max_iter,
+        decoy_n_runs: if case.max_runs == 5 { 2 } else { 5 },
+        decoy_tol: F::cast(0.5),
+        decoy_max_iter: if case.max_iter == 1 { 7 } else { 1 },
+        decoy_init: if case.init_kind == "random" { KMeansInit::KMeansPlusPlus } else { KMeansInit::Random },
+        init,
+    }
+}
+
+/// getters of the checked parameters against the literal final parameter set
+fn getter_mismatch<F: Float, D: Distance<F> + PartialEq + std::fmt::Debug>(
+    p: &KMeansParams<F, Xoshiro256Plus, D>,
+    ps: &ParamSet<F>,
+    k: usize,
+    rng: Option<&Xoshiro256Plus>,
+    dist: &D,
+) -> Option<String> {
+    let v = match p.check_ref() {
+        Ok(v) => v,
+        Err(e) => return Some(format!("check_ref() of a valid final parameter set returned Err({})", e)),
+    };
+    let mut bad = Vec::new();
+    if v.n_runs() != ps.n_runs {
+        bad.push(format!("n_runs() = {} (set: {})", v.n_runs(), ps.n_runs));
+    }
+    if v.tolerance() != ps.tol {
+        bad.push(format!("tolerance() = {} (set: {})", v.tolerance(), ps.tol));
+    }
+    if v.max_n_iterations() != ps.max_iter {
+        bad.push(format!("max_n_iterations() = {} (set: {})", v.max_n_iterations(), ps.max_iter));
+    }
+    if v.n_clusters() != k {
+        bad.push(format!("n_clusters() = {} (constructed with {})", v.n_clusters(), k));
+    }
+    if v.init_method() != &ps.init {
+        bad.push(format!("init_method() = {:?} (set: {:?})", v.init_method(), ps.init));
+    }
+    if let Some(r) = rng {
+        if v.rng() != r {
+            bad.push("rng() is not the generator given to the constructor".to_string());
+        }
+    }
+    if v.dist_fn() != dist {
+        bad.push(format!("dist_fn() = {:?} (constructed with {:?})", v.dist_fn(), dist));
+    }
+    if bad.is_empty() {
+        None
+    } else {
+        Some(bad.join("; "))
+    }
+}
+
+fn fit_params<F: Float, D: Distance<F>>(p: &KMeansParams<F, Xoshiro256Plus, D>, data: &Array2<F>) -> Result<KMeans<F, D>, String> {
+    match guarded(|| p.fit(&DatasetBase::from(data.view())).map_err(|e| e.to_string())) {
+        Ok(Ok(m)) => Ok(m),
+        Ok(Err(e)) => Err(format!("Err({})", e)),
+        Err(pn) => Err(format!("panic: {}", pn)),
+    }
+}
+
+fn obs_bits(o: &Obs) -> (Vec<u64>, Vec<u64>, u64) {
+    (o.flat.iter().map(|x| x.to_bits()).collect(), o.counts.iter().map(|x| x.to_bits()).collect(), o.inertia.to_bits())
+}
+
+/// `alt`: the other constructors of the same logical parameters (L2 only): (name, fresh params, rng known?)
+fn run_builder<F: Float, D: Distance<F> + PartialEq + std::fmt::Debug>(
+    case: &Case,
+    dist: D,
+    met: Met,
+    alt: Vec<(&'static str, KMeansParams<F, Xoshiro256Plus, D>, bool)>,
+    viols: &mut Vec<Violation>,
+) -> Cnt {
+    let mut cnt = Cnt::default();
+    let env: Env<F> = make_env(case, met, &[]);
+    let k = env.k;
+    let ps: ParamSet<F> = param_set(case, env.d);
+    let rng = Xoshiro256Plus::seed_from_u64(case.seed);
+    let nt = nontrivial(&env.pts, k);
+    let fresh = || KMeans::params_with(k, rng.clone(), dist.clone());
+    // documented defaults of a fresh builder (rustdoc of KMeansParams::new)
+    let defaults = ParamSet { n_runs: 10, tol: F::cast(1e-4), max_iter: 300, init: KMeansInit::KMeansPlusPlus, decoy_n_runs: 0, decoy_tol: F::zero(), decoy_max_iter: 0, decoy_init: KMeansInit::Random };
+    let mut ctors: Vec<(&'static str, KMeansParams<F, Xoshiro256Plus, D>, bool)> = vec![("params_with", fresh(), true)];
+    ctors.extend(alt);
+    // ---- canonical: params_with, setters in declaration order
+    let canon_seq: Vec<(usize, bool)> = (0..4).map(|f| (f, false)).collect();
+    let mut canon = fresh();
+    for &(f, d) in &canon_seq {
+        canon = apply_setter(canon, &ps, f, d);
+    }
+    cnt.add("fits", 1);
+    if nt {
+        cnt.add("fits_nontrivial", 1);
+    }
+    let at0 = json!({"sequence": "canonical"});
+    let canon_model = match fit_params(&canon, &env.data) {
+        Ok(m) => m,
+        Err(e) => {
+            viols.push(Violation::new("kmeans.fit.unexpected_error", format!("fit with a valid parameter set failed: {}", e), env.cj(at0)));
+            return cnt;
+        }
+    };
+    let canon_obs = observe(&canon_model);
+    let mut pcache: PredCache = HashMap::new();
+    check_model(&env, &canon_model, &canon_obs, &at0, true, None, None, true, &mut pcache, viols, &mut cnt);
+    if let Some(msg) = getter_mismatch(&canon, &ps, k, Some(&rng), &dist) {
+        viols.push(Violation::new("kmeans.params.builder_order_dependence", format!("canonical order {}: {}", seq_name(&canon_seq), msg), env.cj(at0.clone())));
+    }
+    let canon_bits = obs_bits(&canon_obs);
+    let seqs = builder_sequences();
+    for (cname, base, rng_known) in ctors.iter() {
+        // fresh builder: documented defaults
+        cnt.add("constructor_default_checks", 1);
+        if let Some(msg) = getter_mismatch(base, &defaults, k, if *rng_known { Some(&rng) } else { None }, &dist) {
+            viols.push(Violation::new(
+                "kmeans.params.constructor_dependence",
+                format!("fresh KMeans::{}(..): {} (documented defaults: n_runs 10, tolerance 1e-4, max_n_iterations 300, KMeansPlusPlus)", cname, msg),
+                env.cj(json!({"sequence": format!("{}:fresh", cname)})),
+            ));
+        }
+        // the other constructors run the canonical order and (thorough work is in params_with) a rotation of the sequences
+        let my_seqs: Vec<&Vec<(usize, bool)>> = if *cname == "params_with" { seqs.iter().collect() } else { seqs.iter().step_by(7).collect() };
+        for seq in my_seqs {
+            let sig = if *cname == "params_with" { "kmeans.params.builder_order_dependence" } else { "kmeans.params.constructor_dependence" };
+            let name = format!("{}:{}", cname, seq_name(seq));
+            let at = json!({"sequence": name});
+            let mut p = base.clone();
+            for &(f, d) in seq.iter() {
+                p = apply_setter(p, &ps, f, d);
+            }
+            cnt.add("builder_sequences_checked", 1);
+            if let Some(msg) = getter_mismatch(&p, &ps, k, if *rng_known { Some(&rng) } else { None }, &dist) {
+                viols.push(Violation::new(sig, format!("KMeans::{}(..) then {}: {}", cname, seq_name(seq), msg), env.cj(at.clone())));
+                continue;
+            }
+            if *rng_known && p != canon {
+                viols.push(Violation::new(sig, format!("KMeans::{}(..) then {}: parameter struct differs from the canonical order although every getter agrees", cname, seq_name(seq)), env.cj(at.clone())));
+                continue;
+            }
+            // the generator of KMeans::params(k) is not ours: results are comparable only when the
+            // initialisation does not draw (Precomputed)
+            if !*rng_known && case.init_kind != "precomputed" {
+                continue;
+            }
+            cnt.add("fits", 1);
+            cnt.add("builder_fits", 1);
+            if nt {
+                cnt.add("fits_nontrivial", 1);
+            }
+            match fit_params(&p, &env.data) {
+                Ok(m) => {
+                    let o = observe(&m);
+                    if obs_bits(&o) != canon_bits {
+                        viols.push(Violation::new(
+                            sig,
+                            format!(
+                                "KMeans::{}(..) then {}: fit gives centroids {:?} counts {:?} inertia {}, the canonical order (same final parameters) gives {:?} {:?} {}",
+                                cname,
+                                seq_name(seq),
+                                o.flat,
+                                o.counts,
+                                o.inertia,
+                                canon_obs.flat,
+                                canon_obs.counts,
+                                canon_obs.inertia
+                            ),
+                            env.cj(at.clone()),
+                        ));
+                    }
+                }
+                Err(e) => viols.push(Violation::new("kmeans.fit.unexpected_error", format!("KMeans::{}(..) then {}: fit failed: {}", cname, seq_name(seq), e), env.cj(at))),
+            }
+        }
+    }
+    cnt
+}
+
 fn run_case(case: &Case, viols: &mut Vec<Violation>) -> Cnt {
+    if case.kind == "builder" {
+        let rng = Xoshiro256Plus::seed_from_u64(case.seed);
+        return match (case.float.as_str(), case.metric.as_str()) {
+            ("f64", "L2") => run_builder::<f64, _>(case, L2Dist, Met::L2, vec![("params_with_rng", KMeans::params_with_rng(case.k, rng), true), ("params", KMeans::params(case.k), false)], viols),
+            ("f32", "L2") => run_builder::<f32, _>(case, L2Dist, Met::L2, vec![("params_with_rng", KMeans::params_with_rng(case.k, rng), true), ("params", KMeans::params(case.k), false)], viols),
+            ("f64", "L1") => run_builder::<f64, _>(case, L1Dist, Met::L1, vec![], viols),
+            ("f64", "Lp3") => run_builder::<f64, _>(case, LpDist(3.0f64), Met::Lp3, vec![], viols),
+            _ => panic!("bad builder case"),
+        };
+    }
     fn go<F: Float, D: Distance<F>>(case: &Case, dist: D, met: Met, viols: &mut Vec<Violation>) -> Cnt {
         if case.kind != "seeded" {
             run_traj::<F, D>(case, dist, met, viols)
@@ -1350,7 +1655,7 @@ fn replay_value(v: &Value) -> Vec<Violation> {
     });
     if let Some(at) = at {
         // keep the violations of the recorded fit (budget / restart count)
-        let key = |a: &Value| (a.get("budget").cloned(), a.get("restart_alone").cloned(), a.get("n_runs").cloned(), a.get("layout").cloned());
+        let key = |a: &Value| (a.get("budget").cloned(), a.get("restart_alone").cloned(), a.get("n_runs").cloned(), a.get("layout").cloned(), a.get("sequence").cloned());
         let want = key(&at);
         out.retain(|x| x.case.get("at").map(|a| key(a) == want).unwrap_or(false));
     }
@@ -1438,6 +1743,8 @@ fn main() {
          replicated cases = every set of 2..3 distinct points of {{0..4}} (1-D) and of {{(0,0),(0,1),(1,0),(1,1),(2,2)}} (2-D) under the images id and +1e3, every point repeated so that n is one of {{1024, 1025, 2049, 3000}} (thorough: also 1023, 2048, 4097; remainder to the first point), rows contiguous per point or round-robin, f64, L2 (thorough: + L1), k = 1..min(p,3), every k-subset of the distinct points as Precomputed start, budgets 1..=3, n_runs(1): same lock-step oracle with the reference step working on (point, multiplicity) pairs (copies of a point are identical rows and go to the same centroid), predict / transform on the distinct points. \
          wide cases = 3 point sets of 6 points (hand-built axes set, generic-position lattice + jitter, sparse) in d = 16, 17, 33, 40 features x {{L2, L1, Linf, Lp(3)}} x f64 (+ f32 for d = 17) x k = 2..3 x every k-subset of the points as Precomputed start, budgets 1..=2, n_runs 1..3, same oracles (queries: pairwise midpoints, origin, far point). \
          layout sweep (trajectory cases under the identity image with tolerance 1e-4, replicated f64 contiguous cases with n = 1025 (thorough: + 4097), every wide case): for the budgets 1 and max the fit is repeated with the training matrix as column-major owned array (Precomputed centroids column-major too), transposed view of a feature-major array, reversed-row view of a reversed copy, every-second-row view of a 2n-row array whose odd rows are NaN; centroids / counts / inertia must equal the standard-layout fit, predict (batch, single row) / transform of both models on the equally re-laid-out training and query points must equal the standard-layout answers and pass the arg-min oracle. replicated cases also in f32 under the identity image (quick: n = 1025). \
+         builder cases = a rotation of the 4-point 1-D multisets and 3x3-lattice subsets x {{f64 L2, f32 L2, f64 L1, f64 Lp(3)}} x init {{Precomputed, Random, k-means++}} x n_runs {{1,3}} x tolerance {{1e-4,1e-2}} x max_n_iterations {{1,2,300}}, k = 2: from KMeans::params_with every one of the 24 orders of the setters n_runs / tolerance / max_n_iterations / init_method, each order additionally with a decoy write of one field (at the very beginning and directly before its real write) and with decoy writes of all four fields first; from KMeans::params_with_rng and KMeans::params (L2) every 7th of those sequences; fresh builders must show the documented defaults, the getters of check_ref() must equal the final logical parameter set, the parameter struct must equal the canonically built one and the fit must be bit-identical to the canonical order (KMeans::params only with a Precomputed start: its generator is not ours). \
+         every batch predict is additionally repeated through predict_inplace into a buffer poisoned with usize::MAX, a buffer pre-filled with wrong labels and a buffer reused from a differently ordered batch, every single-row predict through predict_inplace into a poisoned and into a wrong slot: must equal the plain form exactly. \
          evaluations = fits of the real code; non-trivial = fits with k >= 2 on data with >= 2 distinct rows; every fitted model additionally gets predict (batch, single row) / transform evaluations on its training rows and on the lattice + half-lattice + far query points (first and last fit of a case). \
          states / transitions = distinct reference states (centroid set, stopped flag) per level / reference steps.",
         lad = ladder, n1 = n1_max, n1a = n1_all_images, n2 = n2_max, k = k_max, b = budgets, s = seeds, caps = iter_caps, r = max_runs
@@ -1721,6 +2028,58 @@ fn main() {
         }
     }
     ctx.extra("cases_wide", json!(n_wide));
+
+    // ---------------- builder family: setter orders, decoy-then-real writes, constructors
+    let mut n_builder = 0u64;
+    {
+        let mut bsets: Vec<(String, Vec<Vec<f64>>, usize)> = Vec::new();
+        for ms in en::multisets(5, 4, 2).into_iter().step_by(ctx.pick(9, 3)) {
+            bsets.push(("1d_multiset/id".into(), ms.iter().map(|&i| vec![i as f64]).collect(), 1));
+        }
+        for ss in en::k_subsets(9, 4).into_iter().step_by(ctx.pick(21, 6)) {
+            bsets.push(("lattice3x3/id".into(), ss.iter().map(|&i| lat[i].iter().map(|&v| v as f64).collect()).collect(), 2));
+        }
+        ctx.extra("builder_datasets", json!(bsets.len()));
+        ctx.extra("builder_sequences_per_constructor", json!(builder_sequences().len()));
+        for (fam, data, dim) in &bsets {
+            for (float, metric) in [("f64", "L2"), ("f32", "L2"), ("f64", "L1"), ("f64", "Lp3")] {
+                if *dim == 1 && metric == "Lp3" {
+                    continue;
+                }
+                for init_kind in ["precomputed", "random", "kmeans++"] {
+                    for &n_runs in &[1usize, 3] {
+                        for &tol in &tols {
+                            for &max_iter in &[1u64, 2, 300] {
+                                cases.push(Case {
+                                    kind: "builder".into(),
+                                    family: fam.clone(),
+                                    data: data.clone(),
+                                    float: float.into(),
+                                    metric: metric.into(),
+                                    k: 2,
+                                    tol,
+                                    queries: base_queries(*dim),
+                                    init: if init_kind == "precomputed" { vec![data[0].clone(), data[3].clone()] } else { vec![] },
+                                    init_from_data: true,
+                                    budgets: 0,
+                                    init_kind: init_kind.into(),
+                                    seed: 7,
+                                    max_runs: n_runs,
+                                    max_iter,
+                                    ladder: 0,
+                                    mult: vec![],
+                                    interleave: false,
+                                    layouts: false,
+                                });
+                                n_builder += 1;
+                            }
+                        }
+                    }
+                }
+            }
+        }
+    }
+    ctx.extra("cases_builder", json!(n_builder));
     ctx.extra("cases_enumerated", json!(cases.len()));
     ctx.extra("cases_trajectory", json!(n_traj));
     ctx.extra("cases_seeded", json!(n_seeded));
